@@ -1500,10 +1500,38 @@ def run(ctx: common.Ctx):
     if ok:
         sweep(ctx)
     run_all(ctx)
+    probe_update_from_view(ctx)
     # shrink monitor witnesses
     for f in ctx.failures:
         if f.kind == 'monitor' and isinstance(f.witness, dict) and 'ops' in f.witness:
             f.witness['ops'] = shrink_monitor(f.witness['scenario'], f.witness['layout'], f.witness['ops'], f.signature)
+
+
+def probe_update_from_view(ctx: common.Ctx):
+    """A meta mapping view used as the SOURCE of update(): with repeated keys the view is a first-match mapping, so
+    after target.meta.update(source.meta) every key reads in the target what it reads in the source - exactly what
+    dict.update(source.meta) gives."""
+    from autobean_refactor import models
+    P = parser()
+    texts = ['2000-01-01 open Assets:Src\n  aa: 1\n  bb: "x"\n  aa: 2\n  cc: TRUE\n  bb: "y"\n2000-01-02 close Assets:Dst\n  zz: 0\n  aa: 9\n',
+             '2000-01-01 open Assets:Src\n  kk: 2000-01-01\n  kk: 2000-01-02\n  kk: 2000-01-03\n2000-01-02 close Assets:Dst\n']
+    for text in texts:
+        f = P.parse(text, models.File)
+        src, dst = f.raw_directives
+        ctx.count('update_from_view_probes')
+        ref = {'zz': None}
+        ref = dict(dst.meta.items()) if False else {k: dst.meta[k] for k in dst.meta.keys()}
+        ref.update(src.meta)                       # the reference: a plain dict updated from the same view
+        try:
+            dst.meta.update(src.meta)
+        except Exception as e:
+            ctx.monitor_failure('C10:update-from-view', f'dst.meta.update(src.meta) raised {type(e).__name__}: {e}', {'text': text})
+            continue
+        got = {k: dst.meta[k] for k in dst.meta.keys()}
+        want = {k: src.meta[k] for k in src.meta.keys()}
+        if any(got.get(k) != v for k, v in want.items()) or got != ref:
+            ctx.monitor_failure('C10:update-from-view', f'after dst.meta.update(<meta view of the source, keys repeated>) the target reads '
+                                f'{got}; the source view reads {want} and dict.update gives {ref}', {'text': text})
 
 
 def search(ctx: common.Ctx):
